@@ -23,7 +23,10 @@ package main
 import (
 	"fmt"
 	"os"
+	"runtime"
 	"strconv"
+	"sync"
+	"sync/atomic"
 
 	"github.com/alibaba/sentinel-golang/api"
 	"github.com/alibaba/sentinel-golang/core/base"
@@ -211,6 +214,48 @@ func main() {
 				}
 			}
 			tr.Emit(hx.M{"op": "conc", "res": res, "bs": bs, "sched": sched, "oks": oks, "conc": c, "points": points})
+		case "storm":
+			// W free-running goroutines (real parallelism, no gate) enter and exit the resource with batch 1.  The driver keeps
+			// its own count of admitted-and-not-yet-exited entries (raised after Entry returned an entry, lowered before Exit is
+			// called), which never exceeds the true number of entries in flight; its maximum, the totals and the gauge at
+			// quiescence are recorded.
+			res, w, iters := hx.Int(s, "res"), int(hx.Int(s, "workers")), int(hx.Int(s, "iters"))
+			var infl, maxInfl, adm, rej int64
+			var wg sync.WaitGroup
+			var start int32
+			for i := 0; i < w; i++ {
+				wg.Add(1)
+				go func() {
+					defer wg.Done()
+					for atomic.LoadInt32(&start) == 0 {
+						runtime.Gosched()
+					}
+					for j := 0; j < iters; j++ {
+						o := entry(name(res), 1)
+						if !o.ok || o.entry == nil {
+							atomic.AddInt64(&rej, 1)
+							continue
+						}
+						atomic.AddInt64(&adm, 1)
+						n := atomic.AddInt64(&infl, 1)
+						for {
+							m := atomic.LoadInt64(&maxInfl)
+							if n <= m || atomic.CompareAndSwapInt64(&maxInfl, m, n) {
+								break
+							}
+						}
+						if j%3 == 0 {
+							runtime.Gosched()
+						}
+						atomic.AddInt64(&infl, -1)
+						o.entry.Exit()
+					}
+				}()
+			}
+			atomic.StoreInt32(&start, 1)
+			wg.Wait()
+			tr.Emit(hx.M{"op": "storm", "res": res, "workers": w, "iters": iters, "admitted": adm, "rejected": rej,
+				"maxinfl": maxInfl, "conc": conc(name(res))})
 		default:
 			hx.Fatal("unknown op %q", op)
 		}
